@@ -191,6 +191,10 @@ func branchPattern(r *rand.Rand, forMessage bool, inspect bool) (interface{}, bo
 		case 4:
 			return map[string]interface{}{"uid": "?u", "k": float64(r.Intn(3))}, true
 		case 5:
+			if r.Intn(2) == 0 {
+				// the variable first, constants after it
+				return map[string]interface{}{"l": []interface{}{"?e", "p"}}, true
+			}
 			return map[string]interface{}{"l": []interface{}{"?e"}}, true
 		case 6:
 			return map[string]interface{}{}, true
